@@ -25,6 +25,7 @@ type Ctx struct {
 	info     *types.Info
 	pkg      *PkgInfo
 	loopSpec *LoopSpec // the loop whose invariant is being evaluated (before(e))
+	curRecv  Value     // receiver of the call whose at-call clauses are being evaluated
 	assuming bool      // the clause being evaluated is assumed (callee contract at a call site), not proved
 }
 
